@@ -29,6 +29,11 @@ Met(c) == /\ Ran(c)
 
 Success(cs) == \A i \in DOMAIN cs : Met(cs[i])
 
+\* exit status of a whole run.  AsImplemented_PeerProtocolErrorFailsRun: in addition to the rule of the
+\* statement, a peer that violates the runner protocol (garbage on its stdout, non-zero exit status)
+\* makes the run fail even when every case was answered and met its expectation.
+RunVerdict(cs, peerFault) == Success(cs) /\ ~peerFault
+
 \* how the report accounts for a case (each case exactly once)
 Class(c) == IF c.fate \in {"couldNotRun", "absent"} THEN "couldNotRun"
             ELSE IF ~Ran(c) THEN "failed"                                 \* setup errors are never acceptable
